@@ -5,7 +5,7 @@
     (instance obligations, vm_compute).  The FGD grammar itself is not modelled (search only). *)
 From Coq Require Import List NArith Arith Bool String.
 From SV Require Import Fmt.LongString Fmt.LongStringProofs Fmt.FgdBin Fmt.FgdBinProofs SM.LazyDb SM.LazyDbProofs.
-From SV Require Import Fmt.FgdBinEnt Fmt.FgdBinEntProofs Fmt.FgdLine Fmt.FgdLineProofs Fmt.FgdLineTextProofs.
+From SV Require Import Fmt.FgdBinEnt Fmt.FgdBinEntProofs Fmt.FgdLine Fmt.FgdLineProofs Fmt.FgdLineTextProofs Fmt.FgdBody Fmt.FgdBodyProofs.
 From SV Require Import Gen.FgdConsts_gen.
 Import ListNotations.
 Open Scope N_scope.
@@ -201,6 +201,28 @@ Theorem c16_kv_line_text_roundtrip :
     (List.tl (kv_toks vt vt_text vt_is_bool vt_is_flags dec lcfg label custom k) ++ rest)
   = Some (mk_kvl vt name (seen_tags custom tags) ty ro rep [disp] (default_written vt vt_is_bool lcfg k) [desc] NoList, rest).
 Proof. exact kv_line_text_roundtrip. Qed.
+
+(** The whole body of an entity (Fmt/FgdBody.v): the keyvalue, input and output lines in the order written — with the
+    blank / comment lines EntityDef.export puts between them —, the @resources block and the closing bracket are read
+    back by the loop of EntityDef.parse as the same keyvalues, inputs and outputs in the same order (normal forms: long
+    strings joined, I/O types decayed, no tags in the plain syntax) and the same resources.  [item_wf]: the line
+    conditions above, and no keyvalue is called input, output or @resources. *)
+Theorem c16_entity_body_roundtrip :
+  forall (tag_norm : str -> str) (tags_valid : list str -> bool) (vt : Type) (vt_text : vt -> str) (vt_lookup : str -> option (bool * vt))
+         (vt_is_bool vt_is_flags vt_is_choices : vt -> bool) (io_text : vt -> str) (io_lookup : str -> option vt) (io_decay : vt -> vt)
+         (dec : N -> str) (undec : str -> option N) (pow2 : N -> bool) (cfg : line_cfg) (rt : Type) (rt_text : rt -> str)
+         (rt_lookup : str -> option rt),
+  (forall v, vt_lookup (vt_text v) = Some (false, v)) -> (forall v, io_lookup (io_text v) = Some (io_decay v)) ->
+  (forall n, undec (dec n) = Some n) -> (forall t, rt_lookup (rt_text t) = Some t) ->
+  colons_before_desc_without_default cfg = 2%nat -> res_block_if_defined cfg = true ->
+  forall (label custom : bool) (items : list (nat * item vt)) (res : resources rt) (rest : list tok),
+  Forall (item_wf tag_norm tags_valid vt vt_is_bool vt_is_flags vt_is_choices dec pow2 cfg label) (map snd items) ->
+  match res with Some l => Forall (riwf tag_norm tags_valid rt) l | None => True end ->
+  body_read tag_norm tags_valid vt vt_lookup vt_is_bool vt_is_flags vt_is_choices io_lookup dec undec pow2 rt rt_lookup
+    (body_toks vt vt_text vt_is_bool vt_is_flags io_text dec cfg rt rt_text label custom items res ++ rest)
+  = Some (with_res vt rt (fold_left (add_item vt vt_is_bool io_decay cfg rt custom) (map snd items) (mk_body vt rt [] [] [] None))
+                   (if custom then res else None), rest).
+Proof. exact body_roundtrip. Qed.
 
 (** One concrete instance (non-vacuity, and the refutations of the other writer branches). *)
 Inductive xvt := XString | XBool | XFlags | XChoices.
@@ -488,8 +510,8 @@ Theorem c16_eager_is_file_content :
               = spec name ent bytes name_eqb decode B c.
 Proof. exact eager_correct. Qed.
 
-(** the recursive lookups of alias bases never run deeper than the number of blocks (a block is marked as
-    decoded BEFORE its bases are looked up: [lazy_mark_before_resolve]) *)
+(** the recursive lookups of alias bases never run deeper than the number of blocks (the model marks a block as
+    decoded before its bases are looked up, as the source does) *)
 Theorem c16_base_lookups_terminate :
   forall (name ent bytes : Type) (name_eqb : name -> name -> bool)
          (decode : list name -> bytes -> list ent) (ent_bases : ent -> list name)
